@@ -77,7 +77,9 @@ Definition params_match_gen (f5 f6 : bool) (c : curve_row) (p : ec_params) : res
                   (b0 =? 2 + (last_byte (c_gy c)) mod 2) && bytes_eqb (c_gx c) rest)
             else Ok (bytes_eqb (c_gx c) rest)
           else if b0 =? 4 then
-            (* append(a.BaseX, a.BaseY...) writes into BaseX's spare capacity; its value is X||Y *)
+            (* append(a.BaseX, a.BaseY...): the value is X||Y.  The dumped (len, cap) pairs show cap = len for
+               every slice under go1.23.5 (hex.DecodeString allocates exactly), so the append copies and
+               the table is never written; the [table] op of the check re-reads the table after the run *)
             Ok (bytes_eqb (c_gx c ++ c_gy c) rest)
           else Ok false
       end
